@@ -15,6 +15,9 @@ case["perms"] = line orders of case["model"], all imported and compared with the
 by G.make_edge_seqids (seqids that start/end with a blank-like character) run as "gtf" / "gtf-oneshot" cases.
 "gtf-strategy": case["merge_strategy"] (one of G.MERGE_STRATEGIES) is passed to create_db; the file has no duplicated ids but
 gene/transcript lines of its own that differ from what inference derives (G.make_differing) or look exactly like it.
+"gtf-mixed-strand": a model rewritten by G.make_mixed_strands (exons of one gene / transcript on both strands of one seqid).
+"gtf-dupkeys": a model rewritten by G.make_dupkeys (several subfeature lines with one exon_id under different transcripts),
+imported with id_spec {..., subfeature: 'exon_id'} and case["merge_strategy"] in G.DUP_STRATEGIES.
 """
 import os
 import random
@@ -48,7 +51,18 @@ RULE = ("GTF files of 1-3 genes x 1-3 transcripts x 0-4 subfeature lines ('exon'
         "(10%), 1-2 attributes no derived feature has (80%) - or (1 file of 5) that looks exactly like a derived feature; each "
         "file under merge_strategy = 'error', 'merge', 'replace', 'create_unique', 'warning' x all four flag combinations: "
         "the line must stay the single feature under its id with its own columns and attribute mapping, everything else as "
-        "in the basic workload. Exon lines that carry a gene id but no (or an empty) transcript id are never generated. "
+        "in the basic workload. (mixed strands) the subfeature lines of 1..n genes are put on BOTH strands of their one seqid - all "
+        "lines of one transcript of a gene with >= 2 exon-bearing transcripts flipped (sense/antisense transcripts under one "
+        "gene id: transcripts consistent, gene mixed) or some but not all exons of one transcript flipped (transcript and gene "
+        "mixed) - under all four flag combinations: extent (min start .. max end over ALL exons), seqid, retrievability and "
+        "the hierarchy are judged, the strand of a derived feature only where its exons agree. (one primary key, several "
+        "lines) 1-2 subfeature lines get an exon_id that 1-2 added lines under ANOTHER transcript (same gene, or another gene on "
+        "the same seqid and strand) repeat - same columns (always under 'merge') or other coordinates - with id_spec {gene: gene "
+        "key, transcript: transcript key, subfeature: 'exon_id'}, custom keys in 2 of 3 files, under merge_strategy = 'replace' "
+        "(stored: the LAST line of a key, with its links only), 'warning' (the FIRST), 'merge' (one feature carrying the ids of "
+        "all its lines: child of each of them), 'create_unique' (every line a feature) x all four flag combinations; both "
+        "transcripts keep a line with a key of its own. "
+        "Exon lines that carry a gene id but no (or an empty) transcript id are never generated. "
         "non-trivial = >= 2 transcripts in "
         "one gene and >= 1 transcript with >= 2 subfeature lines; distinct = file text + keys + flag combination + way of input")
 REQUIRED = ["imports", "derived features compared (id, type, seqid, strand)", "derived extents compared",
@@ -72,7 +86,20 @@ REQUIRED = ["imports", "derived features compared (id, type, seqid, strand)", "d
         "strategy %s: transcript lines meeting a derived feature of their id compared",
         "strategy %s: such lines with another source than a derived feature",
         "strategy %s: such lines with other coordinates than the exons' extent",
-        "strategy %s: such lines with attributes no derived feature has")]
+        "strategy %s: such lines with attributes no derived feature has")] + [
+    "mixed strands: derived genes whose exons lie on both strands compared (extent, seqid; strand not judged)",
+    "mixed strands: derived transcripts whose exons lie on both strands compared (extent, seqid; strand not judged)",
+    "mixed strands: derived transcripts with consistent exons under a mixed-strand gene compared (strand judged)",
+    "mixed strands: imports judged (relations, children/parents)"] + [
+    fmt % s for s in ("replace", "merge", "create_unique", "warning") for fmt in (
+        "one key, several lines: imports with merge_strategy='%s' and custom keys judged",
+        "one key, several lines: imports with merge_strategy='%s' and default keys judged",
+        "one key, several lines (%s): lines sharing their primary key with a line of another transcript")] + [
+    "one key, several lines (replace): replaced lines (not stored; their links expected absent)",
+    "one key, several lines (replace): replaced lines naming another transcript than the stored line, custom keys",
+    "one key, several lines (replace): derived extents compared of transcripts/genes that lost a line to replacement",
+    "one key, several lines (warning): skipped lines (not stored; their links expected absent)",
+    "one key, several lines (merge): stored features carrying >= 2 transcript ids, child of each"]
 REQUIRED_CLASSES = ["flags: infer both", "flags: no transcripts", "flags: no genes", "flags: infer nothing",
                     "file: gene/transcript lines present", "file: no gene/transcript lines", "file: explicit lines look derived (merge path)",
                     "file: transcript without exons", "keys: custom", "keys: default", "subfeature: custom",
@@ -88,11 +115,26 @@ REQUIRED_CLASSES = ["flags: infer both", "flags: no transcripts", "flags: no gen
                     "strategy: merge_strategy='create_unique'", "strategy: merge_strategy='warning'",
                     "strategy: explicit lines differ from inference", "strategy: explicit lines look derived",
                     "strategy: explicit lines differ in: source", "strategy: explicit lines differ in: wider coordinates",
-                    "strategy: explicit lines differ in: extra attributes"]
+                    "strategy: explicit lines differ in: extra attributes",
+                    "mixed strands: antisense transcript", "mixed strands: trans-spliced",
+                    "one key, several lines: keys custom", "one key, several lines: keys default",
+                    "one key, several lines: the lines of a key differ in coordinates",
+                    "one key, several lines: a key shared by transcripts of two genes"]
 ASSUMPTIONS = [
     "the reference model gvmon/models/gtfinfer.py is a faithful reading of the statement",
-    "exons (subfeature lines) of one transcript and of one gene share seqid and strand (otherwise 'the exons' seqid and "
-    "strand' is undefined); gene ids, transcript ids and auto-generated ids are pairwise different",
+    "exons (subfeature lines) of one transcript and of one gene share their seqid (otherwise 'the exons' seqid' is "
+    "undefined; exons of one id on different seqids are not generated); gene ids, transcript ids and auto-generated ids are "
+    "pairwise different.  Exons of one id on BOTH strands (mixed-strand class only): the derived feature exists, is "
+    "retrievable, sits on the exons' seqid and spans min start .. max end over ALL its exons; its strand is not judged "
+    "(a transcript whose own exons agree is judged on their strand even when its gene is mixed)",
+    "several lines with one primary key (a shared exon_id made the key of subfeature lines through id_spec): merge_strategy "
+    "decides which of them are stored features - 'replace': the last line of the key, 'warning': the first, 'create_unique': "
+    "all (later ones under a key of their own), 'merge' (lines identical in all columns but the attributes): one feature "
+    "carrying the attribute values of all of them.  The statement then reads over the STORED features: a line that is not "
+    "stored contributes neither links nor extent (its transcript no longer spans it), a merged feature carries every "
+    "transcript/gene id of its lines and is a child of each.  Every transcript involved keeps a line with a key of its own, "
+    "so the gene-transcript links never rest on a line that is not stored (elsewhere the statement is silent: not generated). "
+    "merge_strategy='error' raises by definition and is not part of this class",
     "a transcript id annotated under several gene ids (shared-transcript class only): each gene id that owns >= 1 subfeature "
     "line gets one derived gene spanning the subfeature lines carrying THAT gene id; the transcript gets one derived feature "
     "spanning all subfeature lines carrying the transcript id; every line is a level-1 child of its transcript and a level-2 "
@@ -196,8 +238,11 @@ def import_one(ctx, case, m):
     lines = m["lines"]
     dit, dig = bool(case["dit"]), bool(case["dig"])
     tkey, gkey, sub = m["tkey"], m["gkey"], m["subfeature"]
-    exp = I.expect(lines, tkey, gkey, sub, dit, dig)
     text = G.text_of(m)
+    if m.get("dupkeys"):
+        # the lines that are stored features under this merge_strategy (file order kept); tags name the lines
+        lines = [lines[i] for i in G.surviving(m, case["merge_strategy"])]
+    exp = I.expect(lines, tkey, gkey, sub, dit, dig)
     large = len(lines) > 1000
     how = case.get("how", "path")
     dbfn = ":memory:" if case.get("db", "memory") == "memory" else ctx.tmp(".db")
@@ -206,6 +251,8 @@ def import_one(ctx, case, m):
         kw.update(gtf_transcript_key=tkey, gtf_gene_key=gkey, id_spec={"gene": gkey, "transcript": tkey})
     if sub != "exon":
         kw["gtf_subfeature"] = sub
+    if m.get("dupkeys"):
+        kw["id_spec"] = {"gene": gkey, "transcript": tkey, sub: m["dupkeys"]["attr"]}
     if "checklines" in case:
         kw["checklines"] = int(case["checklines"])
     if case.get("merge_strategy") is not None:
@@ -238,7 +285,7 @@ def import_one(ctx, case, m):
             ctx.violation(case, dict(info, why="create_db raised %s" % type(ex).__name__, error=repr(ex)))
             return None
         ctx.mon("imports")
-        if case.get("merge_strategy") is not None:
+        if case.get("merge_strategy") is not None and not m.get("dupkeys"):
             ctx.mon("strategy: imports with merge_strategy=%r of a file without duplicated ids" % (case["merge_strategy"],))
         if how != "path":
             ctx.mon("one-shot inputs imported (generator/iterator of Features)")
@@ -252,7 +299,13 @@ def import_one(ctx, case, m):
             raise AssertionError("harness: generated file was not read as GTF: %r" % (text[:300],))
         if m.get("odd"):
             ctx.mon("odd ids: files read as GTF")
-        return judge(ctx, case, db, exp, lines, info, m)
+        got = judge(ctx, case, db, exp, lines, info, m)
+        if isinstance(got, dict):
+            if m.get("mixed_strands"):
+                ctx.mon("mixed strands: imports judged (relations, children/parents)")
+            if m.get("dupkeys"):
+                observe_dupkeys(ctx, case, m, lines, exp)
+        return got
     finally:
         if db is not None:
             try:
@@ -285,10 +338,11 @@ def judge(ctx, case, db, exp, lines, info, m):
                 by_tag[t] = f
         else:
             untagged.append(f)
-    want_tags = {"L%d" % i for i in range(len(lines))}
+    tag_of = [I.attr(rec, "tag") for rec in lines]       # "L<n>", n = number of the line in the FILE
+    want_tags = set(tag_of)
     if set(by_tag) != want_tags:
         missing = sorted(want_tags - set(by_tag), key=lambda t: int(t[1:]))
-        own = {"L%d" % i: ident for ident, i in exp["explicit"].items()}
+        own = {tag_of[i]: ident for ident, i in exp["explicit"].items()}
         gone = [own[t] for t in missing if t in own]
         if gone:
             return ctx.violation(case, dict(info, why="a gene/transcript line of the file is no longer stored (not the single feature under its id)",
@@ -298,13 +352,13 @@ def judge(ctx, case, db, exp, lines, info, m):
         return ctx.violation(case, dict(info, why="input lines missing from the database", missing=missing[:20]))
     name2id = {}
     for i, n in enumerate(exp["names"]):
-        name2id[n] = by_tag["L%d" % i]["id"] if n.startswith("@") and n == "@%d" % i else n
+        name2id[n] = by_tag[tag_of[i]]["id"] if n.startswith("@") and n == "@%d" % i else n
     # -- gene/transcript lines of the file: the single feature under their id, columns and attributes kept -------
-    strategy = case.get("merge_strategy")
+    strategy = case.get("merge_strategy") if not m.get("dupkeys") else None
     extent = subfeature_extents(lines, m) if strategy is not None else None
     for ident, i in sorted(exp["explicit"].items()):
         rec = lines[i]
-        f = by_tag["L%d" % i]
+        f = by_tag[tag_of[i]]
         ctx.mon("gene/transcript lines of the file compared (single feature, columns, attributes)")
         if strategy is not None:
             # does inference produce a feature of this id that meets the line?  (the id owns subfeature lines, its flag is off)
@@ -319,7 +373,7 @@ def judge(ctx, case, db, exp, lines, info, m):
                     ctx.mon(S + "such lines with other coordinates than the exons' extent")
                 if {a for a, _ in rec["attrs"]} - {m["tkey"], m["gkey"], "tag"}:
                     ctx.mon(S + "such lines with attributes no derived feature has")
-        if i >= 1000:
+        if int(tag_of[i][1:]) >= 1000:
             ctx.mon("gene/transcript lines standing after line 1000 compared")
         cols = {"seqid": rec["seqid"], "source": rec["source"], "featuretype": rec["featuretype"], "start": int(rec["start"]),
                 "end": int(rec["end"]), "score": rec["score"], "strand": rec["strand"], "frame": rec["frame"]}
@@ -356,6 +410,15 @@ def judge(ctx, case, db, exp, lines, info, m):
         if g.id != ident or got != raw:
             return ctx.violation(case, dict(info, why="db[id] disagrees with the stored row", id=ident, got=got, row=raw))
         keys = ("featuretype", "seqid", "strand", "start", "end") if both else ("featuretype",)
+        if want["strand"] is None:
+            # exons on both strands: extent, seqid and retrievability are fixed by the statement, the strand is not
+            keys = tuple(k for k in keys if k != "strand")
+            if both:
+                ctx.mon("mixed strands: derived %ss whose exons lie on both strands compared (extent, seqid; strand not judged)"
+                        % want["featuretype"])
+        elif both and m.get("mixed_strands") and want["featuretype"] == "transcript" and \
+                exp["derived"].get(gene_of(lines, m, ident), {"strand": 0})["strand"] is None:
+            ctx.mon("mixed strands: derived transcripts with consistent exons under a mixed-strand gene compared (strand judged)")
         if both:
             ctx.mon("derived extents compared")
             if oneshot:
@@ -439,9 +502,44 @@ def judge(ctx, case, db, exp, lines, info, m):
     ctx.mon("sql: INSERT INTO features traced", sqltrace.kinds().get("INSERT INTO features", 0))
     # what was stored, lines named by their position in the unshuffled model (for comparisons between line orders)
     perm = m.get("perm") or list(range(len(lines)))
-    canon = {by_tag["L%d" % j]["id"]: "B%d" % i for j, i in enumerate(perm)}
+    canon = {by_tag[tag_of[j]]["id"]: "B%d" % i for j, i in enumerate(perm)}
     return {"derived": sorted([f["id"], f["featuretype"], f["seqid"], f["strand"], f["start"], f["end"]] for f in untagged),
             "relations": sorted([canon.get(p_, p_), canon.get(c_, c_), lv] for p_, c_, lv in rows)}
+
+
+def gene_of(lines, m, tid):
+    for rec in lines:
+        if rec["featuretype"] == m["subfeature"] and I.attr(rec, m["tkey"]) == tid:
+            return I.attr(rec, m["gkey"])
+    return None
+
+
+def observe_dupkeys(ctx, case, m, lines, exp):
+    """Monitors of the 'one key, several lines' class after an import that agreed with the model."""
+    s = case["merge_strategy"]
+    custom = (m["tkey"], m["gkey"]) != ("transcript_id", "gene_id")
+    both = not case["dit"] and not case["dig"]
+    ctx.mon("one key, several lines: imports with merge_strategy=%r and %s keys judged" % (s, "custom" if custom else "default"))
+    stored = {I.attr(rec, "tag") for rec in lines}
+    all_lines = {I.attr(rec, "tag"): rec for rec in m["lines"]}
+    for grp in m["dupkeys"]["groups"]:
+        ctx.mon("one key, several lines (%s): lines sharing their primary key with a line of another transcript" % s, len(grp))
+        kept = [t for t in grp if t in stored]
+        gone = [t for t in grp if t not in stored]
+        if s in ("replace", "warning"):
+            ctx.mon("one key, several lines (%s): %s lines (not stored; their links expected absent)"
+                    % (s, "replaced" if s == "replace" else "skipped"), len(gone))
+            tk = I.attr(all_lines[kept[0]], m["tkey"])
+            for t in gone:
+                t2, g2 = I.attr(all_lines[t], m["tkey"]), I.attr(all_lines[t], m["gkey"])
+                if s == "replace" and custom and t2 != tk:
+                    ctx.mon("one key, several lines (replace): replaced lines naming another transcript than the stored line, custom keys")
+                if s == "replace" and both:
+                    ctx.mon("one key, several lines (replace): derived extents compared of transcripts/genes that lost a line to replacement",
+                            sum(1 for i in (t2, g2) if i in exp["derived"]))
+        elif s == "merge":
+            if len({I.attr(all_lines[t], m["tkey"]) for t in grp}) >= 2:
+                ctx.mon("one key, several lines (merge): stored features carrying >= 2 transcript ids, child of each")
 
 
 def subfeature_extents(lines, m):
@@ -503,6 +601,17 @@ def classify(ctx, case, m=None):
         names.append("strategy: merge_strategy=%r" % (case["merge_strategy"],))
         names.append("strategy: explicit lines look derived" if m.get("derived_like") else "strategy: explicit lines differ from inference")
         names += ["strategy: explicit lines differ in: " + d for d in m.get("differing") or ()]
+    for mode in m.get("mixed_strands") or ():
+        names.append("mixed strands: " + mode)
+    if m.get("dupkeys"):
+        names.append("one key, several lines: keys " + ("default" if (tkey, gkey) == ("transcript_id", "gene_id") else "custom"))
+        names.append("one key, several lines: merge_strategy=%r" % (case["merge_strategy"],))
+        if not m["dupkeys"]["same_columns"]:
+            names.append("one key, several lines: the lines of a key differ in coordinates")
+        tagged = {I.attr(rec, "tag"): rec for rec in lines}
+        if any(len({I.attr(tagged[t], gkey) for t in grp}) >= 2 for grp in m["dupkeys"]["groups"]):
+            names.append("one key, several lines: a key shared by transcripts of two genes")
+        names = [n for n in names if not n.startswith("strategy: ")]
     for n in names:
         ctx.classes[n] += 1
     return any(len(v) >= 2 for v in tx_of_gene.values()) and any(n >= 2 for n in subs.values())
@@ -593,6 +702,35 @@ def run(ctx):
         for strategy in G.MERGE_STRATEGIES:
             for dit, dig in FLAG_NAMES:
                 one(ctx, {"kind": "gtf-strategy", "model": m, "merge_strategy": strategy, "dit": dit, "dig": dig, "db": dbkind}, m)
+    # -- (mixed strands) exons of one gene / transcript on both strands of one seqid -------------------------------------
+    for i in range(ctx.budget(60, 1500)):
+        for _ in range(20):
+            m = G.model(rng, ngenes=rng.choice([1, 2, 3]))
+            if G.make_mixed_strands(rng, m):
+                break
+        else:
+            ctx.skip("mixed strands: no gene with two exon-bearing transcripts / transcript with two exons drawn")
+            continue
+        dbkind = "file" if rng.random() < 0.15 else "memory"
+        for dit, dig in ([(False, False)] if i % 2 else list(FLAG_NAMES)):
+            one(ctx, {"kind": "gtf-mixed-strand", "model": m, "dit": dit, "dig": dig, "db": dbkind}, m)
+    # -- (one primary key, several lines) a shared exon_id under different transcripts x merge_strategy, custom keys in 2 of 3 ----
+    for i in range(ctx.budget(36, 900)):
+        same = bool(i % 2)
+        for _ in range(40):
+            m = G.model(rng, ngenes=rng.choice([1, 2, 2, 3]))
+            if (i % 3 != 0) != ((m["tkey"], m["gkey"]) != ("transcript_id", "gene_id")):
+                continue
+            if G.make_dupkeys(rng, m, same_columns=same):
+                break
+        else:
+            ctx.skip("one key, several lines: no file with two suitable transcripts drawn")
+            continue
+        for strategy in G.DUP_STRATEGIES:
+            if strategy == "merge" and not same:
+                continue      # lines that differ in their columns are not merged (what happens then is C-other's business)
+            for dit, dig in ([(False, False)] if (i // 2) % 2 else list(FLAG_NAMES)):
+                one(ctx, {"kind": "gtf-dupkeys", "model": m, "merge_strategy": strategy, "dit": dit, "dig": dig, "db": "memory"}, m)
     ctx.mon("bins.bins contract evaluations", contracts.EVALS["bins.bins"])
 
 
